@@ -62,14 +62,20 @@ CLAIMED = {
              "continue as goto to the labels of the innermost enclosing loop by construction) + the end lines, and whenever the 32-bit source semantics Sem/Src32 runs the program to an "
              "outcome with printed lines, the tree runs under the structured reading of cmd.exe's rules (ExecBs: run-time !name! expansion, 32-bit set /A on canonical decimal operands, "
              "numeric versus quoted string IF, the echo routine, goto abandons every open block) to the same outcome with the same lines - all programs, nestings and iteration counts. "
-             "Also batch_preserves_conditional_semantics_partial (no loops) and batch_preserves_straight_line_semantics_partial (line level, no tree). NOT proved: functions, slices, string "
-             "operations, switch / range (known findings); that cmd.exe executes the line list as the tree says (labels are proved pairwise distinct and every jump resolved in C16) - the "
-             "tree semantics, the line-level program-counter machine Sem/Cmd.runPC, lib/cmdsim.py on the rendered text and the 32-bit reference are compared on every scalar program of every run. "
+             "Also batch_preserves_conditional_semantics_partial (no loops) and batch_preserves_straight_line_semantics_partial (line level, no tree). LINE LEVEL "
+             "(batch_script_lines_preserve_scalar_semantics, no tree in the statement): under the line-level semantics Sem/CmdLines.LRun - a simple line runs, a label is a no-op, goto continues "
+             "behind the first definition of the label in the whole script, a false `if ... (` skips to the matching `)` / `) else (` / `) else if ... (` counting nested brackets, the last line "
+             "exits with the code in _e - the lines of the script from the first program line on run to exit code 0 (normal end) or 1 (panic) with the printed lines of the source semantics; "
+             "the tree is proved sound for the lines (Lemmas/SemBLinesSound), well-formedness of the tree and resolution of every construct label are proved for every script of the fragment "
+             "(Lemmas/SemBLabels, from the invariant behind C16.batch_construct_labels_unique); LRun is deterministic and its interpreter lrun sound (batch_lines_outcome_unique). NOT proved: "
+             "functions, slices, string operations, switch / range (known findings); that the start code leaves the start store and jumps over the helper routines; that cmd.exe reads the "
+             "rendered text as these lines - the line-level semantics (lrun), the tree semantics, the program-counter machine Sem/Cmd.runPC, lib/cmdsim.py on the rendered text and the 32-bit "
+             "reference are compared on every scalar program of every run. "
              "Structure (Props/C05.lean), for every program without any hypothesis: every statement leaves parenthesis depth and the heights of the if/loop/"
              "end-label/function stacks unchanged, all stacks are empty at the end, every emitted script has balanced parentheses (helpers included), label numbers are handed out "
              "once. Beyond the theorem's fragment the semantics under cmd.exe is SEARCHED: the cmd model (lib/cmdsim.py, calibrated on the suite's expectations in every run) executes "
              "the real script of every generated program and compares with the 32-bit reference result.",
-        note=TB + "no cmd.exe exists in the sandbox; cmd.exe's rules are those of Sem/Cmd + Sem/CmdTree (for the theorems) and of the cmd model lib/cmdsim.py, which works on the rendered text "
+        note=TB + "no cmd.exe exists in the sandbox; cmd.exe's rules are those of Sem/Cmd + Sem/CmdLines (for the theorems; the block tree Sem/CmdTree is proved sound for them) and of the cmd model lib/cmdsim.py, which works on the rendered text "
                   "(DESIGN.md appendix F); they are compared on every scalar program of every run, Sem/Src32 with the 32-bit reference interpreter.",
         technique="Lean 4 compiler-correctness theorem (32-bit source semantics vs Lean cmd model with labels and goto as a block tree, whole scalar fragment) + graded-walk theorems on the Batch emitter "
                   "model + byte-for-byte correspondence + the semantic models validated against each other, a calibrated cmd.exe model and the 32-bit reference + execution of every script under that model",
